@@ -3,6 +3,7 @@
 //! usage: bverif <property-id> <quick|thorough>
 //!        bverif replay <file>
 
+mod absx;
 mod agentsx;
 mod bookprops;
 mod c07;
